@@ -226,3 +226,19 @@ def run(res, pid, n_quick=1500, n_thorough=20000):
                                                   "occasional duplicates) / 0-3 fragments per partition with empty ones: the real primaryCopies and backupCopies "
                                                   "run over recording fragments; call sequence compared with Model/Balancer.v plan inside Coq"}
     return n
+
+
+def replay(res, obj, path):
+    """re-runs a balancer-decisions replay (the recorded case through the real functions, predicate, model comparison)"""
+    ok, out = vlib.harness_build()
+    if not ok:
+        raise vlib.CheckError(out)
+    case = dict(obj["scenario"], id=0)
+    ob = run_cases([case])[0]
+    v = predicate(case, ob)
+    bad, _ = coq_mismatches([case], {0: ob})
+    print(json.dumps({"impl_trace": ob, "predicate": v, "model_mismatch": bool(bad)}))
+    if v or bad:
+        print("VIOLATION property=%s replay=%s%s" % (res.pid, path, "" if v else " no-failing-input-found"))
+        return 1
+    return 0
